@@ -12,12 +12,12 @@ ENGINE = 'history'
 BUDGET = {'quick': 12000, 'thorough': 200000}
 WALL = {'quick': 45, 'thorough': 1500}
 RULE = ('one trash-rm PATTERN per case over a multi-volume trash with case variants, metacharacter names and equal base '
-        'names in several directories/volumes; pattern grammar: literals, *, ?, [set], [a-z], [!set], leading / (full path); '
+        'names in several directories/volumes, in half of the cases with something new (symlink to a sibling with another pool name, dangling link, file, directory) at some recorded original locations; pattern grammar: literals, *, ?, [set], [a-z], [!set], leading / (full path); '
         'non-trivial = pattern matches some but not all entries; distinct = (pattern shape, #matching, #entries)')
 ASSUMPTIONS = ['unterminated brackets and the empty pattern are not generated (unspecified by the property)',
                'the matching law itself is a pure function; the simulator contributes the multi-volume on-disk state it is applied to']
 PROBES = ['matched', 'unmatched', 'full-path-pattern', 'bracket-pattern', 'volume-trash-match', 'case-variant-kept',
-          'same-basename-multi-dir']
+          'same-basename-multi-dir', 'original-location-occupied-now']
 TECHNIQUE = 'deterministic simulation of trash-rm on generated multi-volume trash; removed set compared with an independent glob matcher'
 LEVEL_TEXT = 'seeded exploration of pattern x name-set; set equality between removed pairs and the model matcher; survivors byte-identical'
 LEVEL_NOTE = 'trusted: model/glob.py (backtracking matcher written from the fnmatch documentation), model/bag.py'
@@ -64,9 +64,11 @@ def gen(rng):
                       alt_states=[rng.choice(['absent', 'dir']) for _ in range(4)])
     steps = L['steps']
     names = rng.sample(NAMES, rng.randint(3, 8))
-    TG.populate(rng, L, steps, n=rng.choice([2, 3, 5, 8, 12]), names=names)
+    made = TG.populate(rng, L, steps, n=rng.choice([2, 3, 5, 8, 12]), names=names)
+    occ = TG.occupy(rng, steps, made, names) if rng.random() < 0.5 else {}
     pat = gen_pattern(rng, names, L['home'])
     return {
+        'note': {'occupied': sorted(k for k, v in occ.items() if v != 'sibling-target')},
         'world': {'mounts': L['mounts'], 'steps': steps},
         'procs': [{'argv': ['trash-rm', pat], 'env': L['env'], 'cwd': rng.choice(['/', L['home']]), 'uid': L['uid']}],
         'dirsalt': rng.randrange(1 << 30),
@@ -114,6 +116,8 @@ def check(sim, case, st):
         if not m and any(x.location and x is not e and x.location.rsplit('/', 1)[-1].lower() == b.lower() and
                          MG.rm_matches(x.location, pat) for x in bag0):
             st.probes['case-variant-kept'] += 1
+    if case.get('note', {}).get('occupied'):
+        st.probes['original-location-occupied-now'] += 1
     if pat.startswith('/'):
         st.probes['full-path-pattern'] += 1
     if '[' in pat:
